@@ -169,16 +169,18 @@ impl<DataInterfaceType: DeduplicationDataInterface> FileDeduper<DataInterfaceTyp
             }
 
             if let Some((n_deduped, fse)) = dedupe_query {
-                dedup_metrics.deduped_chunks += n_deduped;
-                dedup_metrics.deduped_bytes += fse.unpacked_segment_bytes as usize;
-                dedup_metrics.total_chunks += n_deduped;
-                dedup_metrics.total_bytes += fse.unpacked_segment_bytes as usize;
-
                 // check the fragmentation state and if it is pretty fragmented,
                 // we skip dedupe.  However, continuing the previous is always fine.
                 if self.file_data_sequence_continues_current(&fse)
                     || self.defrag_tracker.allow_dedup_on_next_range(n_deduped)
                 {
+                    // Only a range that is actually deduplicated counts as deduplicated; a rejected
+                    // range is counted chunk by chunk as new data below.
+                    dedup_metrics.deduped_chunks += n_deduped;
+                    dedup_metrics.deduped_bytes += fse.unpacked_segment_bytes as usize;
+                    dedup_metrics.total_chunks += n_deduped;
+                    dedup_metrics.total_bytes += fse.unpacked_segment_bytes as usize;
+
                     // We found one or more chunk hashes present
                     self.add_file_data_sequence_entry(fse, n_deduped);
 
